@@ -344,11 +344,83 @@ func headerBody(c *mc.Ctx, item int) mc.Verdict {
 	return v
 }
 
+// manySegmentsBody: streams of many short segments (hundreds of headers, among
+// them hundreds of empty text and binary segments), read with small and large
+// caller buffers from a source that delivers normally, one byte at a time, or
+// answers every other call with an empty read (0, nil).
+var manyCounts = []int{50, 99, 100, 101, 102, 150, 300, 1000}
+var manyPatterns = []string{"empty text", "empty binary", "empty text and binary in turn", "one-byte text", "one-byte binary", "empty and one-byte in turn"}
+var manyBufs = []int{1, 3, 7, 64, 4096}
+
+func manySegmentsBody(c *mc.Ctx, item int) mc.Verdict {
+	k := manyCounts[item%len(manyCounts)]
+	pat := (item / len(manyCounts)) % len(manyPatterns)
+	bufSize := manyBufs[(item/len(manyCounts)/len(manyPatterns))%len(manyBufs)]
+	mode := item / len(manyCounts) / len(manyPatterns) / len(manyBufs) // 0 full, 1 one byte, 2 empty reads in between
+	var st stream
+	for i := 0; i < k; i++ {
+		switch pat {
+		case 0:
+			st.segs = append(st.segs, seg{1, 0})
+		case 1:
+			st.segs = append(st.segs, seg{2, 0})
+		case 2:
+			st.segs = append(st.segs, seg{1 + i%2, 0})
+		case 3:
+			st.segs = append(st.segs, seg{1, 1})
+		case 4:
+			st.segs = append(st.segs, seg{2, 1})
+		default:
+			st.segs = append(st.segs, seg{1 + i%2, (i / 2) % 2})
+		}
+	}
+	st.segs = append(st.segs, seg{1, 5}, seg{2, 3})
+	st.ending = endMarker
+	data, want, _ := st.build()
+	src := env.NewSource(data)
+	src.Decide = func(call, req, remaining int) (int, bool) {
+		switch mode {
+		case 1:
+			return 1, false
+		case 2:
+			if call%2 == 0 {
+				return -1, false // (0, nil)
+			}
+		}
+		return req, false
+	}
+	r := pfb.Decode(src)
+	var got []byte
+	buf := make([]byte, bufSize)
+	var err error
+	for steps := 0; steps < 10*len(want)+10*k+1000; steps++ {
+		var n int
+		n, err = r.Read(buf)
+		got = append(got, buf[:n]...)
+		if err != nil {
+			break
+		}
+	}
+	c.Steps(src.Calls)
+	what := fmt.Sprintf("%d segments (%s) followed by text5, bin3 and the end marker; caller buffer %d; source mode %d", k, manyPatterns[pat], bufSize, mode)
+	if err != io.EOF {
+		v := mc.Fail("C14:many-segments:error", fmt.Sprintf("%s: ended with %v after %d of %d output bytes", what, err, len(got), len(want)))
+		v.Render = what
+		return v
+	}
+	if !bytes.Equal(got, want) {
+		v := mc.Fail("C14:many-segments:wrong-output", fmt.Sprintf("%s: output %q, expected %q", what, got, want))
+		v.Render = what
+		return v
+	}
+	return mc.Pass("many-segments-ok", true)
+}
+
 func main() {
 	mc.Main(mc.Program{
 		Property: "C14",
 		Assumptions: []string{
-			"source readers never return (0, nil) for a non-empty buffer (excluded by the property)",
+			"source readers return (0, nil) only in the many-short-segments family (permitted by io.Reader; never twice in a row)",
 			"io.EOF is a clean end of stream, not an error, for the purposes of 'gives an error'",
 			"payload bytes are a fixed pseudo-random sequence; the decoder's control flow does not depend on payload values",
 		},
@@ -385,6 +457,13 @@ func main() {
 					streamFamily("streams-of-4-segments", 4, 2, []int{0, 1, 3}),
 				}
 			}
+			fams = append(fams, mc.Family{
+				Name:   "many-short-segments",
+				Items:  len(manyCounts) * len(manyPatterns) * len(manyBufs) * 3,
+				Body:   manySegmentsBody,
+				Budget: budget,
+				Rule:   fmt.Sprintf("item = number of leading segments %v x pattern %q x caller buffer %v x source {full reads, one byte per read, every other call an empty read (0, nil)}: the leading segments are followed by a 5-byte text segment, a 3-byte binary segment and the end marker; the output must be exactly the segment contents and end with io.EOF; non-trivial = all", manyCounts, manyPatterns, manyBufs),
+			})
 			return append(fams,
 				mc.Family{
 					Name:   "first-two-header-bytes",
